@@ -32,7 +32,7 @@ REQUIRED_THEOREMS = ["index_spec", "range_spec", "no_fault", "all_ops_valid", "b
                      "iter_concat"]
 # the state the models abstract is all the state there is: the fields of the run-time structures, regenerated on every run, are the ones
 # the models were written against (Props/StateInventory)
-THEOREM_MODULES.append("Yarel.Props.StateInventory")
+THEOREM_MODULES.append("Yarel.Props.StateInventory.state_of_sequences_and_iterators")
 REQUIRED_THEOREMS += ['state_of_sequences_and_iterators']
 LEVEL = "proof"
 ASSUMPTIONS = [
